@@ -347,7 +347,7 @@ Section Paths.
       destruct to_np, to_pd; cbn [andb]; try (split; [reflexivity|discriminate]).
       + split; [reflexivity|]. intros t' c' H. inversion H; subst t' c'. exact Hc.
       + split.
-        * unfold check_X. cbn [andb]. rewrite (a3_to_nested_eq n w T _ Hwf).
+        * unfold check_X. cbn [andb result render]. rewrite (a3_to_nested_eq n w T _ Hwf).
           unfold cnames, ncols_of. cbn [c_names c_data].
           rewrite (wf_shape_cols n w T _ Hwf). reflexivity.
         * intros t' c' H. inversion H; subst t' c'. apply Hsame. exact I.
